@@ -2,14 +2,16 @@ ENTRY = {
     "level": "proof",
     "families": [fam("C07", 60, 1500)],
     "gen_items": [],
-    "rule": "cases rotate 30% scan (ids 0..n, n in {0,1,500,998..1002,1500,2048,4000} cut into 1..33 even or random batches, planned with "
-            "RAYON_NUM_THREADS in {1,2,3,8,16}), 20% ojoin (LEFT/RIGHT/FULL join of (id,k) tables, one side >=1000 rows in 2..16 batches, key domains "
-            "3..400 with 10% NULL keys, either side preserved, every declared partition executed concurrently x3 + ctx.sql), 50% sql (sqlgen statements "
+    "rule": "cases rotate 20% scan (ids 0..n, n in {0,1,500,998..1002,1500,2048,4000} cut into 1..33 even or random batches, planned with "
+            "RAYON_NUM_THREADS in {1,2,3,4,8,16}), 10% tracker (FULL join, forced fetch_add order through the hook), 20% ojoin (LEFT/RIGHT/FULL join of (id,k) tables, one side >=1000 rows in 2..16 batches, key domains "
+            "3..400 with 10% NULL keys, either side preserved, every declared partition executed concurrently x3 + ctx.sql), 20% aggcut (hand-written aggregate statements - a single scalar MIN/MAX, global MIN/MAX/COUNT/SUM/AVG, GROUP BY + COUNT(DISTINCT) - over one table of "
+            "24..120 rows whose BIGINT / DATE / DOUBLE / VARCHAR columns carry NULL runs at the start and/or end, as one batch and re-cut into 1,2,3,5,6,7,10,12 batches, "
+            "under the 1-thread and the 4-thread child), 30% sql (sqlgen statements "
             "over catalogs whose table 0 has >=1000 rows in >=2 batches; strata filter/join/agg/distinct/setop/sort_limit/cte/subquery; each under layouts "
             "single-batch / generated batches / re-cut into k in {2,3,7,16,40} batches x five child processes (rayon threads, tokio workers) = "
-            "(1,1),(2,4),(3,2),(8,4),(16,8), plus the union of the individually executed declared partitions of ctx.physical_plan); "
+            "(1,1),(2,4),(3,2),(8,4),(16,8) [(4,4) serves scan/ojoin/tracker/aggcut], plus the union of the individually executed declared partitions of ctx.physical_plan); "
             "non-trivial = scan with >=1000 rows and >=2 declared partitions, ojoin with >=2 declared partitions and an unmatched preserved row, "
-            "sql with >=2 answering configurations, a multi-partition plan and a non-empty result; distinct by sha256 of the canonical case",
+            "sql with >=2 answering configurations, a table that reaches the multi-partition rule (or the aggcut stratum) and a non-empty result; distinct by sha256 of the canonical case",
     "trusted_base": COMMON_TB + [
         "modelled not verified: MemoryTableExec partition split, LimitExec unfold loop, UnionExec pair walk, check_partition, the publish / fetch_add / "
         "last-finisher protocol of HashJoinExec (IQE.Engine.Partition, IQE.Engine.Tracker)",
@@ -22,7 +24,7 @@ ENTRY = {
         "sequential consistency per atomic location in C07_tracker*",
         "every scan is planned with at least one rayon thread (C07_declared_partitions, C07_mod_partition_gate)",
     ],
-    "min_tags": {"scan:multi": 1, "scan:single": 1, "ojoin:multi": 1, "sql:multi": 1, "sql:plain": 1},
+    "min_tags": {"scan:multi": 1, "scan:single": 1, "ojoin:multi": 1, "sql:multi": 1, "sql:plain": 1, "s:aggcut": 1, "aggcut:global": 1, "tracker:hook": 1},
     "manifest": {
         "category": "proof",
         "text": "Lean theorems, for all batch lists / layouts / partition counts / interleavings: MemoryTableExec's i % n split covers every batch exactly once "
